@@ -158,6 +158,10 @@ func StreamMutationsForVersion(w io.Writer, versionID, dataID dvid.UUID) error {
 
 // StreamMutationsForSequence streams a JSON of mutation records for a sequence of versions to the writer
 func StreamMutationsForSequence(w io.Writer, dataID dvid.UUID, sequence []dvid.UUID) error {
+	if len(sequence) == 0 {
+		return fmt.Errorf("no versions given to stream mutations for data %s", dataID)
+	}
+
 	// Create a channel for streaming mutations to writer.
 	ch := make(chan []byte, 100000)
 	go sendMutations(ch, dataID, sequence)
